@@ -51,6 +51,10 @@ pub enum Rd {
     Bcj { id: u8, off: u32 },
     Delta { dist: usize },
     Bcj2 { size: u64 },
+    /// LZMA2Reader / LZMA2ReaderMT with a caller-supplied preset dictionary of `preset` bytes
+    Lzma2Preset { dict: u32, preset: usize, mt: bool },
+    /// LZMAReader::new_with_props with a preset dictionary
+    LzmaPreset { dict: u32, preset: usize, size: u64 },
 }
 
 impl Rd {
@@ -68,6 +72,9 @@ impl Rd {
             Rd::Bcj { id, .. } => format!("BCJReader({})", crate::props::c02::BCJ_IDS.iter().find(|b| b.0 == *id).map(|b| b.2).unwrap_or("?")),
             Rd::Delta { .. } => "DeltaReader".into(),
             Rd::Bcj2 { .. } => "BCJ2Reader".into(),
+            Rd::Lzma2Preset { mt: false, .. } => "LZMA2Reader(preset-dict)".into(),
+            Rd::Lzma2Preset { mt: true, .. } => "LZMA2ReaderMT(preset-dict)".into(),
+            Rd::LzmaPreset { .. } => "LZMAReader(preset-dict)".into(),
         }
     }
 }
@@ -482,7 +489,7 @@ fn steer_case(ctx: &Ctx, idx: u64, r: &mut Rng) -> Case {
 
 fn random_case(ctx: &Ctx, r: &mut Rng) -> Case {
     let _ = ctx;
-    let kind = r.below(23);
+    let kind = r.below(24);
     let bufsize = *r.pick(&[1usize, 7, 4096, 4096, 65536]);
     let mut c = match kind {
         0 | 1 => {
@@ -745,6 +752,38 @@ fn random_case(ctx: &Ctx, r: &mut Rng) -> Case {
             let d = declared_for(&reader, &b);
             Case { reader, input: b, extra: vec![], class: "xz-block-header-grammar".into(), declared_dict: d, bufsize, note }
         }
+        22 => {
+            // readers that are given a preset dictionary (smaller than, equal to and larger than the
+            // dictionary): a valid stream made with the same preset, damaged or not, a hand-made
+            // stream without dictionary reset, or random bytes
+            let dict = *r.pick(&[4096u32, 8192]);
+            let d = dict as usize;
+            let preset = *r.pick(&[1usize, d / 2, d - 1, d, d + 1, d + 1000]);
+            let lzma1 = r.chance(1, 3);
+            let pd = vec![b'p'; preset];
+            let len = r.log_range(1, 20_000) as usize;
+            let data = gen::gen_data(r, Family::Text, len);
+            let mut o = fast(dict);
+            o.preset_dict = Some(pd);
+            let mut input = match r.below(4) {
+                0 => vec![0x02, 0x00, 0x04, b'h', b'e', b'l', b'l', b'o', 0x00],
+                1 => r.bytes(200),
+                _ => {
+                    let c = if lzma1 { Container::LzmaRawMarker } else { Container::Lzma2 { chunk: None } };
+                    encode(&Spec { c, o: o.clone() }, &data, &[data.len()], 0).unwrap_or_default()
+                }
+            };
+            let mut note = format!("preset dictionary of {preset} bytes, dict {dict}");
+            if r.chance(1, 2) && !input.is_empty() {
+                note = format!("{note}; {}", mutate(r, &mut input));
+            }
+            let reader = if lzma1 {
+                Rd::LzmaPreset { dict, preset, size: *r.pick(&[u64::MAX, len as u64, 10]) }
+            } else {
+                Rd::Lzma2Preset { dict, preset, mt: r.chance(1, 4) }
+            };
+            Case { reader, input, extra: vec![], class: "preset-dictionary".into(), declared_dict: dict as u64 + preset as u64, bufsize, note }
+        }
         _ => {
             // valid streams concatenated / nested garbage
             let (a, _) = valid_stream(r, Container::Xz { check: 1, block: None, filters: vec![] }, 1000);
@@ -903,6 +942,21 @@ pub fn run_case(ctx: &Ctx, idx: u64) -> Vec<CaseOut> {
                 Err(e) => Run { produced: 0, first_err: Some(format!("ctor {:?}:{}", e.kind(), e)), calls: 0, stopped_by_cap: false },
             },
             Rd::Lzma2 { dict } => drive(LZMA2Reader::new(input.as_slice(), dict, None), bufsize, cap),
+            Rd::Lzma2Preset { dict, preset, mt } => {
+                let pd = vec![b'p'; preset];
+                if mt {
+                    drive(LZMA2ReaderMT::new(input.as_slice(), dict, Some(&pd), 2), bufsize, cap)
+                } else {
+                    drive(LZMA2Reader::new(input.as_slice(), dict, Some(&pd)), bufsize, cap)
+                }
+            }
+            Rd::LzmaPreset { dict, preset, size } => {
+                let pd = vec![b'p'; preset];
+                match LZMAReader::new_with_props(input.as_slice(), size, 0x5D, dict, Some(&pd)) {
+                    Ok(rd) => drive(rd, bufsize, cap),
+                    Err(e) => Run { produced: 0, first_err: Some(format!("ctor {:?}:{}", e.kind(), e)), calls: 0, stopped_by_cap: false },
+                }
+            }
             Rd::Xz { multi } => drive(XZReader::new(input.as_slice(), multi), bufsize, cap),
             Rd::Lzip => match LZIPReader::new(input.as_slice()) {
                 Ok(rd) => drive(rd, bufsize, cap),
@@ -931,7 +985,7 @@ pub fn run_case(ctx: &Ctx, idx: u64) -> Vec<CaseOut> {
             }
         }
     };
-    let outcome: Result<Run, CaseOut> = if is_mt {
+    let outcome: Result<Run, CaseOut> = if is_mt || !mt::is_miri() {
         match mt::guarded(5000, 180_000, work) {
             Guarded::Done(r) => Ok(r),
             Guarded::Panicked(p) => Err(CaseOut::viol(cell_base.clone(), format!("panic {rname} @{}{dbg}", p.site()), p.short_msg(), desc.clone())),
